@@ -61,6 +61,17 @@ func init() {
 				h := genHistory(r, "quick", true)
 				emit(Case{Op: h.String(), Tags: []string{"write-side"}, NonTrivial: true})
 			}
+			// one long payload (beyond the 4096-byte path of the payload reader), faults on and around its first and last byte
+			for i, ln := range []int{100, 4095, 4096, 4097, 5000, 8192, 20000} {
+				for j, kind := range []string{"sysex", "text", "seqdata"} {
+					if tier != "thorough" && (i+j)%2 == 1 {
+						continue
+					}
+					for _, last := range []int{0, 1} {
+						emit(Case{Op: fmt.Sprintf("c10.bigpayload kind=%s len=%d last=%d", kind, ln, last), Tags: []string{"read-side", "big-payload"}, NonTrivial: true})
+					}
+				}
+			}
 			for i := 0; i < nr; i++ {
 				emit(Case{Op: fmt.Sprintf("c10.file seed=%d", r.U64()%1000000000), Tags: []string{"read-side"}, NonTrivial: true})
 			}
@@ -74,6 +85,23 @@ func runC10(c Case, m *Model) (v Verdict) {
 	switch {
 	case strings.HasPrefix(c.Op, "smf.hist"):
 		runC10Write(c, m, &v)
+	case strings.HasPrefix(c.Op, "c10.bigpayload"):
+		f := fields(c.Op)
+		ln, _ := strconv.Atoi(f["len"])
+		b, start := c10BigPayloadFile(f["kind"], ln, f["last"] == "1")
+		for _, k := range []int{start - 3, start - 2, start - 1, start, start + 1, start + 2, start + ln/2, start + ln - 2, start + ln - 1, start + ln, start + ln + 1, len(b) - 1, len(b)} {
+			if k < 0 || k > len(b) {
+				continue
+			}
+			cuts := "-"
+			if k%2 == 1 {
+				cuts = strconv.Itoa(start) // the read that fails starts exactly at the payload
+			}
+			judgeFault(b, cuts, k%3 == 0, k, m, &v)
+			if len(v.Oracle)+len(v.Mismatch) > 2 {
+				return
+			}
+		}
 	case strings.HasPrefix(c.Op, "stream.read"):
 		f := strings.Fields(c.Op)
 		fl := fields(strings.Join(f[2:], " "))
@@ -296,4 +324,44 @@ func c10WriteFile(h *history, want []byte, op string, v *Verdict) {
 			}
 		}
 	}
+}
+
+// c10BigPayloadFile: a two-track file with one event that carries ln payload bytes, in the first or in the last track;
+// returns the file and the offset of the first payload byte
+func c10BigPayloadFile(kind string, ln int, last bool) ([]byte, int) {
+	small := []byte{0x00, 0x90, 0x3C, 0x40, 0x10, 0x80, 0x3C, 0x00, 0x00, 0xFF, 0x2F, 0x00}
+	var ev []byte
+	switch kind {
+	case "sysex":
+		ev = []byte{0x00, 0xF0}
+	case "text":
+		ev = []byte{0x00, 0xFF, 0x01}
+	default:
+		ev = []byte{0x00, 0xFF, 0x7F}
+	}
+	ev = append(ev, specVLQ(uint32(ln))...)
+	off := len(ev)
+	for i := 0; i < ln; i++ {
+		x := byte((i*7 + 3) & 0x7F)
+		if kind == "sysex" && i == ln-1 {
+			x = 0xF7
+		}
+		ev = append(ev, x)
+	}
+	big := append([]byte{0x00, 0xB0, 0x07, 0x64}, ev...)
+	off += 4
+	big = append(big, 0x05, 0xC0, 0x01, 0x00, 0xFF, 0x2F, 0x00)
+	chunk := func(body []byte) []byte {
+		n := len(body)
+		return append([]byte{'M', 'T', 'r', 'k', byte(n >> 24), byte(n >> 16), byte(n >> 8), byte(n)}, body...)
+	}
+	b := []byte{'M', 'T', 'h', 'd', 0, 0, 0, 6, 0, 1, 0, 2, 0, 96}
+	if last {
+		b = append(b, chunk(small)...)
+		start := len(b) + 8 + off
+		return append(b, chunk(big)...), start
+	}
+	start := len(b) + 8 + off
+	b = append(b, chunk(big)...)
+	return append(b, chunk(small)...), start
 }
